@@ -3,7 +3,7 @@ neighbour sharing the edge; where strokes overlap the most recent one wins (open
 from numbers_parser.cell import RGB, Border
 from numbers_parser.model import _NumbersModel
 
-from pysym.api import BoolDom, BVDom, Cases, Harness, IntDom, assume, concretize, cover
+from pysym.api import BoolDom, BVDom, Cases, Harness, IntDom, StrDom, assume, concretize, cover
 from specs.common import StubModel, make_table
 
 OPP = {"top": "bottom", "bottom": "top", "left": "right", "right": "left"}
@@ -798,4 +798,52 @@ HARNESSES.append(
             outside=["widths binary32 cannot hold (read back rounded to 2 decimals)", "the protobuf bytes"],
             models={f32: m_f32},
             patches=[(modelmod, "TSDArchives", FAKE_TSD_H), (modelmod, "TSPMessages", FAKE_TSP_H), (modelmod, "TSTArchives", FAKE_TST_H)]))
+
+
+# ------------------------------------------------------------------------------------------------ background image lookup
+class ImageModel(Cacheable):
+    def __init__(self, style_obj, datas, files):
+        self.objects = ImageObjects({2: Rec(datas=datas), 60: style_obj}, files)
+        self._images = {}
+
+    def table_style(self, table_id, key):
+        return self.objects[60]
+
+
+class ImageObjects:
+    def __init__(self, store, files):
+        self.store = store
+        self.file_store = files
+
+    def __getitem__(self, k):
+        return self.store[k]
+
+
+def h15i_image(n1, n2, which, extra_dir):
+    """a cell's background image is the stored file its style names - not another file whose name merely resembles it"""
+    assume(n1 != n2)
+    datas = [Rec(identifier=11, file_name=n1, preferred_file_name=n1), Rec(identifier=12, file_name=n2, preferred_file_name=n2)]
+    files = {"Data/" + n1: b"first image", "Data/" + n2: b"second image"}
+    if extra_dir:
+        files = {"Index/" + n1: b"not an image", "Data/" + n1: b"first image", "Data/" + n2: b"second image"}
+    image_id = 11 if which == 0 else 12
+    style = Msg({"cell_properties": {"cell_fill": {"image": {"imagedata": {"identifier": image_id}}}}})
+    cell = TextCell.__new__(TextCell)
+    cell._table_id = 7
+    cell._cell_style_id = 5
+    cell._model = ImageModel(style, datas, files)
+    got = cell._image_data
+    assert got is not None
+    data, name = got
+    assert name == (n1 if which == 0 else n2)
+    assert data == (b"first image" if which == 0 else b"second image")
+
+
+HARNESSES.append(
+    Harness("H15i", h15i_image,
+            dict(n1=StrDom(2, [(97, 98)]), n2=StrDom(1, [(97, 98)]), which=Cases([0, 1]), extra_dir=BoolDom()),
+            bounds="two stored images named by 2 and 1 symbolic characters over {a, b} (every suffix / prefix relation), either one "
+                   "referenced by the cell's style, with or without a same-named file in another folder",
+            stubs=["style archive and package data list = attribute bags; file store = dict"],
+            outside=["image bytes, sha1 registration"]))
 PROPERTY = "C15"
